@@ -444,11 +444,14 @@ def scenarios(prop):
         if r1[0] == "token":
             rc = run(h.aclose(), rec)
             t1.run()
+            if rc[0] != "done":
+                # the close was refused while the handle was busy: a regular close afterwards is a close like any other
+                rc = run(h.aclose(), rec)
             if rc[0] == "done":
                 before = src.pos
                 r2 = run(h.__anext__(), rec)
                 if not (r2[0] == "raised" and isinstance(r2[1], StopAsyncIteration)) or src.pos != before:
-                    out.append((f"C07/borrow/closed-handle-yields", {"engine": "scenario", "cfg": "close while a pull is suspended",
+                    out.append((f"C07/borrow/closed-handle-yields", {"engine": "scenario", "cfg": "close while a pull is suspended, then closed again",
                                                                     "observed": repr(r2)[:120], "underlying_advanced": src.pos - before}))
     else:
         # the underlying iterator's aclose() raises at the outermost exit: the error surfaces and the handle has ended
